@@ -2,6 +2,7 @@
 //! every file is first expanded to nested form (a dotted key `a.b` means `{"a":{"b":..}}`), then files are merged
 //! left to right: objects recursively, arrays appended skipping values already present, anything else later-wins.
 use serde_json::{Map, Value};
+use std::collections::BTreeSet;
 
 /// nested form of one file
 pub fn expand(v: &Value) -> Value {
@@ -101,4 +102,33 @@ pub fn has_collision(paths: &[String]) -> bool {
         }
     }
     false
+}
+
+/// first differing path (dotted) between two JSON values and whether an array is involved
+pub fn first_diff(a: &Value, b: &Value, path: &str) -> Option<(String, &'static str)> {
+    match (a, b) {
+        (Value::Object(x), Value::Object(y)) => {
+            let keys: BTreeSet<&String> = x.keys().chain(y.keys()).collect();
+            for k in keys {
+                let p = if path.is_empty() { k.to_string() } else { format!("{path}.{k}") };
+                match (x.get(k), y.get(k)) {
+                    (Some(u), Some(v)) => {
+                        if let Some(d) = first_diff(u, v, &p) {
+                            return Some(d);
+                        }
+                    }
+                    (Some(u), None) | (None, Some(u)) => return Some((p, if u.is_array() { "array" } else { "scalar" })),
+                    _ => {}
+                }
+            }
+            None
+        }
+        (u, v) if u == v => None,
+        (u, v) => Some((path.to_string(), if u.is_array() || v.is_array() { "array" } else { "scalar" })),
+    }
+}
+
+/// rendering of the value at a dotted path (for messages)
+pub fn at(v: &Value, path: &str) -> String {
+    path.split('.').try_fold(v.clone(), |acc, k| acc.get(k).cloned()).map(|x| x.to_string()).unwrap_or_else(|| "-".into())
 }
